@@ -246,6 +246,7 @@ func runC24Probe(t rapid.TB, w *sim.World, idx int, p c24Probe, rec *vx.Case, ta
 			rec.Add("rejected", 1)
 			if v1.OK {
 				rec.Add("model_ok_but_rejected", 1)
+				rec.Add("mokrej/"+p.Class, 1)
 			}
 			if frozen {
 				vx.Violatef(t, rec, id, "freeze-by-failed-tx", "probe %d class %s: failed update froze the client", idx, p.Class)
